@@ -111,6 +111,9 @@ func (f *FuncVC) call(st *State, x *ssa.Call) *Val {
 	if r, ok := f.fieldFuncCall(st, x, args); ok {
 		return r
 	}
+	if r, ok := f.binaryReadParser(st, x); ok {
+		return r
+	}
 	if r, ok := f.libCall(st, x, args); ok {
 		return r
 	}
@@ -791,5 +794,52 @@ func (f *FuncVC) fieldFuncCall(st *State, x *ssa.Call, args []*Val) (*Val, bool)
 	for _, cl := range con.Ensures {
 		f.assume(st, ev.assuming().evalBool(cl.Expr))
 	}
+	return res, true
+}
+
+
+// binaryReadParser models encoding/binary.Read(p, order, data) for a reader
+// that is a *parser.Parser of the repository: binary.Read calls p.Read some
+// number of times (io.ReadFull) and decodes into data.  The effect on p is the
+// assumed contract "functype binaryReadModel" declared in the parser contract
+// file (the contract of repeated (*Parser).Read calls); data receives arbitrary
+// values of its type.
+func (f *FuncVC) binaryReadParser(st *State, x *ssa.Call) (*Val, bool) {
+	c := &x.Call
+	fn := c.StaticCallee()
+	if fn == nil || fn.Pkg == nil || fn.Pkg.Pkg.Path() != "encoding/binary" || fn.Name() != "Read" || len(c.Args) != 3 {
+		return nil, false
+	}
+	ri, ok := c.Args[0].(*ssa.MakeInterface)
+	if !ok {
+		return nil, false
+	}
+	pt, ok := ri.X.Type().(*types.Pointer)
+	if !ok {
+		return nil, false
+	}
+	nt, ok := pt.Elem().(*types.Named)
+	if !ok || nt.Obj().Pkg() == nil || nt.Obj().Pkg().Path() != modPath+"/parser" || nt.Obj().Name() != "Parser" {
+		return nil, false
+	}
+	con := f.eng.funcTypes[modPath+"/parser.binaryReadModel"]
+	if con == nil || len(con.Params) != 1 {
+		return nil, false
+	}
+	di, ok := c.Args[2].(*ssa.MakeInterface)
+	if !ok {
+		return nil, false
+	}
+	dpt, ok := di.X.Type().Underlying().(*types.Pointer)
+	if !ok {
+		return nil, false
+	}
+	if _, sized := binarySize(dpt.Elem()); !sized {
+		return nil, false
+	}
+	pv := f.val(st, ri.X)
+	res := f.applyContract(st, x, con, []*Val{pv})
+	tv := f.val(st, di.X)
+	f.storeTo(st, tv, f.freshTyped(st, dpt.Elem(), "binread"), dpt.Elem())
 	return res, true
 }
